@@ -41,7 +41,20 @@ def implements(*fs):
 
 # ----------------------------------------------------------------- conversions
 def _frompy(f, nin):
-    return np.frompyfunc(f, nin, 1)
+    """Element-wise application over object arrays by explicit iteration.  (np.frompyfunc would make NumPy dispatch on
+    the __array_ufunc__ of scalar terms held in 0-d arrays.)"""
+    def g(*arrs):
+        arrs = [a if isinstance(a, np.ndarray) else obj(a) for a in arrs]
+        b = np.broadcast(*arrs)
+        out = np.empty(b.shape, dtype=object)
+        flat = out.reshape(-1) if out.ndim else None
+        for i, vals in enumerate(b):
+            if flat is None:
+                out[()] = f(*vals)
+            else:
+                flat[i] = f(*vals)
+        return out
+    return g
 
 
 def obj(a):
